@@ -423,11 +423,26 @@ fn check_tx_validity<C: ContentAddrStore>(
 
     let mut in_coins: FxHashMap<Denom, u128> = FxHashMap::default();
 
-    // get last header
+    // get last header. The first block of a chain has no predecessor: covenants are then shown a stand-in that
+    // is the same for every transaction of the block, whatever has been applied before it (the header of the
+    // block sealed as it stood differed from one transaction to the next, so that applying transactions one by
+    // one and applying them as a batch could disagree).
     let last_header = this
         .history
         .get(&(this.height.0.saturating_sub(1).into()))
-        .unwrap_or_else(|| this.clone().seal(None).header());
+        .unwrap_or_else(|| Header {
+            network: this.network,
+            previous: Default::default(),
+            height: this.height,
+            history_hash: Default::default(),
+            coins_hash: Default::default(),
+            transactions_hash: Default::default(),
+            fee_pool: CoinValue(0),
+            fee_multiplier: this.fee_multiplier,
+            dosc_speed: this.dosc_speed,
+            pools_hash: Default::default(),
+            stakes_hash: Default::default(),
+        });
 
     let good_scripts: FxHashSet<Address> = FxHashSet::default();
     for (spend_idx, coin_id) in tx.inputs.iter().enumerate() {
